@@ -210,6 +210,21 @@ inductive Event
 
 /-! ### helpers mirroring small Go functions -/
 
+/-- the batch the sender goroutine currently holds -/
+def Sender.batch? : Sender → Option Nat
+  | .idle => none
+  | .exited => none
+  | .ready b _ => some b
+  | .attempting b _ _ => some b
+  | .finishing b _ _ => some b
+
+/-- the batches of a partition writer that are not completed yet, in processing order: the one being sent, the
+queue, the one detached but not yet put, the one still attached (currBatch) -/
+def PW.pipe (P : PW) : List Nat := P.sender.batch?.toList ++ P.queue ++ P.pending.toList ++ P.curr.toList
+
+/-- batchQueue.Put: append unless the queue is closed -/
+def enq (q : List Nat) (b : Nat) (acc : Bool) : List Nat := if acc then q ++ [b] else q
+
 /-- (*writeBatch).full -/
 def Batch.full (cfg : Cfg) (B : Batch) : Bool :=
   decide (cfg.batchSize ≤ B.msgs.length) || decide (cfg.batchBytes ≤ B.bytes)
@@ -360,7 +375,7 @@ def stepProduce (s : State) (pw : Nat) (tp : TP) (msgs : List Msg) (out : BrOut)
     | .attempting b k none =>
       match s.batches b with
       | some B =>
-        if B.tp = tp ∧ P.tp = tp ∧ B.msgs.map (·.msg) = msgs then some (produced s pw b k P B tp out) else none
+        if B.pw = pw ∧ B.tp = tp ∧ P.tp = tp ∧ B.msgs.map (·.msg) = msgs then some (produced s pw b k P B tp out) else none
       | none => none
     | _ => none
   | none => none
@@ -438,8 +453,8 @@ def step (cfg : Cfg) (s : State) (e : Event) : Option State :=
       match s.pws pw with
       | none => none
       | some P =>
-        if P.pending = some b ∧ acc = !P.qclosed then
-          some { s with pws := upd s.pws pw (some { P with pending := none, queue := (if acc then P.queue ++ [b] else P.queue) }) }
+        if P.pending = some b ∧ P.curr = none ∧ acc = !P.qclosed then
+          some { s with pws := upd s.pws pw (some { P with pending := none, queue := enq P.queue b acc }) }
         else none
   | .qget q ob =>
     match s.qOf q with
